@@ -90,8 +90,10 @@ def make_plan(run_seed: int, profile: Dict[str, Any]) -> Dict[str, Any]:
             ops.append(["mutate", seed])
         elif r < 0.88:
             ops.append(["usage", seed])
-        elif r < 0.94:
+        elif r < 0.93:
             ops.append(["malformed", seed])
+        elif r < 0.965:
+            ops.append(["fuzz", seed])
         else:
             ops.append(["find", seed])
     if not any(o[0] == "solve" for o in ops):
@@ -110,6 +112,7 @@ def make_plan(run_seed: int, profile: Dict[str, Any]) -> Dict[str, Any]:
 WITH_VALUE = {"--grammar", "-g", "--constraint", "-c", "--input-string", "-i", "-n", "--num-solutions", "-d", "--output-dir",
               "-f", "--free-instantiations", "-s", "--smt-instantiations", "-t", "--timeout", "-k", "-w", "--weight-vector",
               "-o", "--output-file", "-x", "--min-mutations", "-X", "--max-mutations", "-l", "--log-level", "--unwinding-depth"}
+# (the TEST_TARGET of `fuzz` is a positional and is kept in front of the files)
 NO_VALUE = {"--tree", "-T", "--pretty-print", "--no-pretty-print", "-p", "--unique-trees", "--unsat-support"}
 
 FS_FAULTS = ["fs_empty", "fs_truncate", "fs_missing", "fs_is_dir", "fs_garbage", "fs_trailing_newline", "fs_crlf",
@@ -270,8 +273,8 @@ class Cli:
                 args += ["--constraint", txt]
         self.spec_args = args
 
-    def bump(self, k):
-        self.stats[k] = self.stats.get(k, 0) + 1
+    def bump(self, k, n=1):
+        self.stats[k] = self.stats.get(k, 0) + n
 
     def v(self, clause, detail, op_index, sig=None):
         from gen.formulas import features_with_grammar
@@ -594,6 +597,27 @@ class Cli:
         else:
             self.bump("check_agreed_%d" % code)
 
+    def op_fuzz(self, seed: int, op_index: int):
+        """`isla fuzz TEST_TARGET -d DIR`: the solver's outputs are passed to a (real, tiny)
+        test target.  Judged: no traceback (in `run`)."""
+        rng = random.Random(seed)
+        n = rng.choice([1, 2, 3])
+        outdir = self.sb.path(self.sb.fresh("fuzz", ""))
+        os.mkdir(outdir)
+        target = rng.choice(["cat {}", "cat {}", "true", "false", "test -s {}", "wc -c < {}", "echo no placeholder"])
+        argv = ["fuzz", target] + self.spec_args + ["-d", outdir, "-n", str(n)]
+        if rng.random() < 0.4:
+            argv += ["-f", str(rng.choice([1, 2, 5])), "-s", str(rng.choice([1, 2, 5]))]
+        if rng.random() < 0.3:
+            argv += ["-t", str(rng.choice([1, 3, 10]))]
+        code, out, err, exc = self.run(argv, op_index)
+        if code is None:
+            return
+        # C19 states nothing about fuzz beyond "no command ends with an uncaught
+        # traceback" (judged in `run`); the rest is counted for the evidence only
+        self.bump("fuzz_exit_%s" % code)
+        self.bump("fuzz_inputs", sum(1 for name in os.listdir(outdir) if name.endswith("_input.txt")))
+
     def op_find(self, seed: int, op_index: int):
         rng = random.Random(seed)
         files = []
@@ -829,6 +853,8 @@ def execute(plan: Dict[str, Any]) -> Dict[str, Any]:
                 cli.op_malformed(seed, idx)
             elif kind == "find":
                 cli.op_find(seed, idx)
+            elif kind == "fuzz":
+                cli.op_fuzz(seed, idx)
             # a damaged *input* file only concerns the command it was damaged for
     except SimBudgetExceeded:
         record["inconclusive"].append("total_work_cap")
